@@ -81,7 +81,7 @@ def key_number(prefix, key):
     return None
 
 
-HANG_SECONDS = 20
+HANG_SECONDS = 6
 
 
 class Hang(Exception):
@@ -356,6 +356,10 @@ def run_history(ctx, cfg, objs, hist):
 def shrink(ctx, cfg, objs, hist, sig):
     """delete calls while the same signature is still flagged"""
     cur = list(hist)
+    if sig == 'op_hang':
+        _, _, m, _ = run_history(ctx, cfg, objs, cur)
+        hits = [i for s, _, i in m.viol if s == sig]
+        return cur[:hits[0] + 1] if hits else cur
 
     def bad(h):
         _, _, m, _ = run_history(ctx, cfg, objs, h)
@@ -389,7 +393,10 @@ def sequential(ctx, res, nhist, length, correspond=True, stats=None):
     ops, prefs, agg = stats.setdefault('ops', {}), stats.setdefault('prefixes', {}), stats.setdefault('monitor', {})
     terms, recs = [], []
     seen = set()
+    hangs = 0
     for h in range(nhist):
+        if hangs >= 2:
+            break           # every further history would wait for the watchdog as well
         cull_limit = [0, 10][h % 2]
         policy = ['none', 'least-recently-stored'][(h // 2) % 2]
         cfg, objs, hist, prefixes = gen_history(ctx, ctx.rng, length, cull_limit, policy)
@@ -402,6 +409,7 @@ def sequential(ctx, res, nhist, length, correspond=True, stats=None):
             res.count(['seq', cfg.cull_limit, cfg.policy, it['op'], sorted(it['args'].items(), key=repr), it['now']], nontrivial=True)
         for k, v in mon.stats.items():
             agg[k] = agg.get(k, 0) + v
+        hangs += int(isinstance(err, Hang))
         for sig in sorted(set(s for s, _, _ in mon.viol)):
             if sig in seen:
                 continue
